@@ -77,8 +77,7 @@ def part_cmd(part, overlay, tier):
     elif part.get("checkptr", True):
         cmd.append("-gcflags=all=-d=checkptr")
     if part.get("fuzz"):
-        cmd += ["-fuzz", part["fuzz"], "-fuzztime", part["fuzztime"][tier], "-parallel", "16",
-                "-test.fuzzcachedir", os.path.join(BUILD, "fuzzcache")]
+        cmd += ["-fuzz", part["fuzz"], "-fuzztime", part["fuzztime"][tier], "-parallel", "16"]
     cmd.append(pkg)
     return cmd
 
@@ -140,6 +139,24 @@ def run_part(pid, part, tier, seed, outdir, replay):
             res["result"] = json.load(open(rf))
         except Exception as ex:  # truncated file = the child died while writing
             res["fatal"].append("unreadable result file: %s" % ex)
+    if part.get("fuzz") and not res["build_failed"]:
+        # native fuzzing: workers are separate processes; the coordinator's log gives the exec count, the fuzz
+        # function records recovered panics as fuzzviol.*.json files
+        execs = [int(x) for x in re.findall(r"execs: (\d+)", text)]
+        interesting = re.findall(r"new interesting: \d+ \(total: (\d+)\)", text)
+        viols = []
+        for f in sorted(glob.glob(os.path.join(outdir, "fuzzviol.*.json"))):
+            try:
+                v = json.load(open(f))
+                v["count"] = 1
+                viols.append(v)
+            except Exception:
+                pass
+            os.rename(f, f + ".seen")
+        res["result"] = {"evaluations": max(execs) if execs else 0, "distinct": int(interesting[-1]) if interesting else 0,
+                         "samples": [], "violations": viols, "unmet": [] if execs else ["fuzz engine reported no executions"],
+                         "counters": {"fuzz_execs": max(execs) if execs else 0, "coverage_interesting_inputs": int(interesting[-1]) if interesting else 0},
+                         "notes": {}, "class_top": {}, "wall_s": wall, "rule": "", "exhaustive": False, "assumptions": []}
     # process-fatal reports
     for m in re.finditer(r"^(fatal error: .*|panic: .*|SIGSEGV.*|runtime: goroutine stack exceeds.*)$", text, re.M):
         line = m.group(1)
